@@ -1,6 +1,7 @@
 """C07 - load balancing: one branch per frame, ordered duplicate-free rejoin."""
 
 from world import oracles
+from world import gen as G
 from world.gen import Profile
 from .c01 import log_probes
 from .mqspec import MQSpec
@@ -17,7 +18,19 @@ class Spec(MQSpec):
                      max_frames=30 if tier == 'quick' else 40, required='maybe', knob_variation=tier != 'quick'), 3),
             (Profile('balance-watch', shapes=('balance',), faults=(), lat_max_ms=40, max_proc_ms=200, ephemeral=1,
                      eph_kinds=(2,), max_frames=30, required='maybe', knob_variation=False), 1),
+            # rolling restarts inside the balanced section: a worker (or the splitter / the rejoin) is shut down cleanly
+            # (CLOSE and exit messages are sent; nobody obeys them) or killed, and started again
+            (Profile('balance-restart', shapes=('balance',), faults=('restart_graceful', 'restart_graceful', 'kill'), max_faults=4,
+                     fault_free_pct=0, lat_max_ms=40, max_proc_ms=200, max_frames=40, required='maybe',
+                     knob_variation=False), 3),
         ]
+
+    def generate(self, ch, prof):
+        sc = G.gen_scenario(ch, prof)
+        if prof.name == 'balance-restart':
+            for spec in sc['nodes'].values():
+                spec['obey_exit'] = 'none'
+        return sc
 
     def budget(self, tier):
         return (2000, 100) if tier == 'quick' else (60_000, 1500)
